@@ -204,9 +204,42 @@ def corner_family_worker(part, _):
     part.nontriv("corner")
 
 
+def vicinal_worker(part, _):
+    """
+    vicinal facets: a facet whose normal is a fraction of a degree (0.01 .. 2 degrees) away from another facet's, at the same or nearly the
+    same energy - both planes bound the shape (stepped surfaces next to a low-index face).  On a cube, on a cuboctahedron and on a generic
+    body; one vicinal facet, a symmetric pair and a ring of four round the same face
+    """
+    bases = {
+        "cube": ([unit(a) * s for a in ((1, 0, 0), (0, 1, 0), (0, 0, 1)) for s in (1, -1)], [1.0] * 6),
+        "cuboctahedron": ([unit(a) * s for a in ((1, 0, 0), (0, 1, 0), (0, 0, 1), (1, 1, 1), (1, 1, -1), (1, -1, 1), (-1, 1, 1)) for s in (1, -1)], [1.0] * 6 + [1.1] * 8),
+        "generic": ([v * s for v in generic_pool(0)[:5] for s in (1, -1)], [1.0, 1.0, 1.3, 1.3, 1.0, 1.0, 1.6, 1.6, 1.2, 1.2]),
+    }
+    for bname, (bn, be) in bases.items():
+        n0 = np.asarray(bn[0], dtype=float)
+        t1 = unit(np.cross(n0, np.array([0.3, 0.5, 0.8])))
+        t2 = unit(np.cross(n0, t1))
+        for deg in (0.01, 0.05, 0.1, 0.2, 0.25, 0.3, 0.6, 2.0):
+            d = np.tan(np.radians(deg))
+            for rel in (0.0, -1e-4, 1e-5, 1e-3):
+                for family, tangents in (("one", [t1]), ("pair", [t1, -t1]), ("ring", [t1, -t1, t2, -t2])):
+                    if rel == 0.0 and family != "one":
+                        # at exactly equal energies a pair leaves of the face between them a strip ~1e-4 wide whose corners lie within the
+                        # reference's own 1e-7 plane tolerance of the neighbouring facets: outside what the reference can decide
+                        continue
+                    normals = [np.asarray(x, dtype=float) for x in bn] + [unit(n0 + d * t) for t in tangents]
+                    energies = list(be) + [be[0] * (1.0 + rel)] * len(tangents)
+                    case = {"kind": "vicinal"}
+                    check_shape(part, np.array(normals), np.array(energies), case, "vicinal:%s:%s" % (bname, family), scale_test=False)
+    part.nontriv("vicinal")
+
+
 def axis_worker(part, chunk, alphabet):
     if chunk and chunk[0] == "corner":
         corner_family_worker(part, None)
+        return
+    if chunk and chunk[0] == "vicinal":
+        vicinal_worker(part, None)
         return
     for idx, assign, extra in chunk:
         normals, energies = build_axis_case(assign, alphabet, extra)
@@ -269,7 +302,7 @@ def run(ctx):
             for ex in extras[1:]:
                 jobs.append((idx, assign, ex))
                 idx += 1
-    ctx.pmap(axis_worker, [["corner"]] + list(chunked(jobs, max(1, len(jobs) // 256))), alphabet=alphabet)
+    ctx.pmap(axis_worker, [["corner"], ["vicinal"]] + list(chunked(jobs, max(1, len(jobs) // 256))), alphabet=alphabet)
     gjobs = []
     idx = 0
     maxk = 12 if ctx.thorough else 7
@@ -296,6 +329,8 @@ def replay(ctx, case):
     k = case["kind"]
     if k == "axis":
         axis_worker(ctx, [(0, tuple(case["assign"]), tuple((tuple(a), e) for a, e in case["extra"]))], tuple(case["alphabet"]))
+    elif k == "vicinal":
+        vicinal_worker(ctx, None)
     elif k == "corner":
         corner_family_worker(ctx, None)
     elif k == "generic":
